@@ -55,6 +55,6 @@ mpf_urandomb (mpf_t rop, gmp_randstate_t rstate, mp_bitcnt_t nbits)
       nlimbs--;
       exp--;
     }
-  EXP (rop) = exp;
+  EXP (rop) = nlimbs != 0 ? exp : 0;	/* zero is stored with exponent 0 */
   SIZ (rop) = nlimbs;
 }
